@@ -264,7 +264,7 @@ def c13Oracle (st : St) (p1 p2 : Progress) (pm : PMsg) (x : Chain) (who p fv o :
   else none
 
 def stepT (st : St) (p1 p2 : Progress) (m : Msg) (key : VKey) (x : Chain) (cjv : Option Chain)
-    (encC : Bool) (encJC : Option Bool) (obs : List String) : St × Verdict :=
+    (encC : Bool) (encJC : Option Bool) (obs : List String) (tampered : Bool := false) : St × Verdict :=
   match obs with
   | [pw, pf, fw, ff, ow, ofr, cmP, cj0P, cj1P, shapeP, cmO, cj0O, cj1O, shapeO] =>
     let comt := st.comt
@@ -274,9 +274,13 @@ def stepT (st : St) (p1 p2 : Progress) (m : Msg) (key : VKey) (x : Chain) (cjv :
     let rpf := partially st.cfg comt p1 emptyCache pm
     -- completion
     let cm0 := complete pm x
-    let inferOk := (cm0.msg.just.map (·.vote.value)) == cjv
+    -- `tampered`: the completion filled in the vote value only and left the justification's value as it
+    -- arrived (what a completion path that forgets the inference, or a peer-supplied completion, would do)
+    let inferOk := tampered || (cm0.msg.just.map (·.vote.value)) == cjv
     let cbase : Msg := cm0.msg
-    let cjust : Option Just := cbase.just.map (fun j => { j with enc := encJC.getD j.enc })
+    let cjust : Option Just := cbase.just.map (fun j =>
+      { j with enc := encJC.getD j.enc,
+               vote := if tampered then { j.vote with value := cjv.getD j.vote.value } else j.vote })
     let cmsg : Msg := { cbase with enc := encC, just := cjust }
     let cpm : PMsg := ⟨cmsg, key⟩
     let mf := fully st.cfg p2 cpm
@@ -427,6 +431,19 @@ def step (st : St) (line : String) : St × Verdict :=
           | none => if mv != f then (st, .diff s!"concurrent phase: fresh verdict {f}, model {mv}") else (st, .ok s!"cv_{f}")
       | _, _ => (st, .bad "cv: parse")
     | _ => (st, .bad "cv: arity")
+  | "tt" :: p1 :: p2 :: rest =>
+    match rest with
+    | s :: pl :: sig :: tic :: j :: enc :: key :: x :: cjv :: encC :: encJC :: "=>" :: obs =>
+      match parseProg? p1, parseProg? p2, parseMsg? st [s, pl, sig, tic, j, enc], parseKey? st key,
+          parseChain? st x, parseBool? encC with
+      | some p1, some p2, some m, some key, some x, some encC =>
+        let cjv? : Option (Option Chain) := if cjv = "-" then some none else (parseChain? st cjv).map some
+        let encJC? : Option (Option Bool) := if encJC = "-" then some none else (parseBool? encJC).map some
+        match cjv?, encJC? with
+        | some cjv, some encJC => stepT st p1 p2 m key x cjv encC encJC obs true
+        | _, _ => (st, .bad "tt: parse2")
+      | _, _, _, _, _, _ => (st, .bad "tt: parse")
+    | _ => (st, .bad "tt: arity")
   | "t" :: p1 :: p2 :: rest =>
     match rest with
     | s :: pl :: sig :: tic :: j :: enc :: key :: x :: cjv :: encC :: encJC :: "=>" :: obs =>
